@@ -94,7 +94,7 @@ def sym_file_format(vc):
                 check(it, 'serializer-by-type[%s,%s]' % (fmt, t), s is want)
             # with a temporal_format_property: ONLY temporal fields carrying that property get a custom strftime serializer;
             # every other field -- temporal or not, whatever precedes it in the schema -- keeps the serializer of its type
-            types2 = ['time', 'datetime', 'string', 'date', 'date', 'integer']
+            types2 = ['time', 'datetime', 'string', 'date', 'date', 'integer', 'date', 'time']   # (a custom format must not leak to LATER fields of its type)
             schema2, fields2 = mk_schema(it, types2)
             fields2[0].attrs['descriptor'].d['outputFormat'] = '%H.%M'
             fields2[4].attrs['descriptor'].d['outputFormat'] = '%d/%m/%y'
@@ -192,6 +192,10 @@ def sym_type_tables(vc):
               d['boolean'].d['falseValues'].items == [str(False)] and 'boolean' not in b.attrs['SERIALIZERS'].d)
         check(it, 'csv-number-stamped-as-plain-decimal', 'number' in d and d['number'].d == {'decimalChar': '.', 'groupChar': ''} and
               'number' not in b.attrs['SERIALIZERS'].d)
+        # text is written as it is: no serializer of its own in either format (str / identity is the default), so that what is read back
+        # is the text that was dumped -- whatever it starts with ('=', '+', '-', '@', a quote, a blank)
+        check(it, 'text-has-no-serializer-of-its-own', 'string' not in b.attrs['SERIALIZERS'].d and 'string' not in js.d and
+              'any' not in b.attrs['SERIALIZERS'].d and 'integer' not in b.attrs['SERIALIZERS'].d)
         check(it, 'csv-null-marker-is-the-empty-string', b.attrs['NULL_VALUE'] == '' and mj.attrs['JSONFormat'].attrs['NULL_VALUE'] is None)
         jd = mb.attrs['json_dumps']
         check(it, 'csv-arrays-and-objects-as-json-text', b.attrs['SERIALIZERS'].d.get('array') is jd and
@@ -350,7 +354,8 @@ def nat_roundtrip(h):
                 r = {'a_int': h.rng.choice([0, -5, 10 ** 12, None]),
                      'b_num': h.rng.choice([decimal.Decimal('1.10'), decimal.Decimal('-0.000001'), decimal.Decimal('12345678901234.5'), None])
                      if fmt == 'csv' else h.rng.choice([decimal.Decimal('1.5'), decimal.Decimal('-2.25'), None]),
-                     'c_str': h.rng.choice(['x', 'a,b', 'q"uo"te', 'two\nlines', '😀é', "it's", 'None', ' padded ', '\ttab', 'trailing newline\n', ' ']),
+                     'c_str': h.rng.choice(['x', 'a,b', 'q"uo"te', 'two\nlines', '😀é', "it's", 'None', ' padded ', '\ttab', 'trailing newline\n', ' ',
+                                            '=SUM(A1)', '+44 20 7946', '-12 degrees', '@handle', "'quoted", '-', '+']),
                      'd_bool': h.rng.choice([True, False, None]),
                      'e_date': h.rng.choice([datetime.date(2020, 2, 29), datetime.date(1999, 12, 31), None]),
                      'f_time': datetime.time(h.rng.randint(0, 23), 59, 1),
